@@ -1,6 +1,6 @@
 (* C11 - All replicas of a board agree with the table manager (in-process part).
    Only statements, each closed by [exact]; proofs are in the files imported below. *)
-From BE Require Import Model.Play Spec.PlayLaws Proofs.Play.
+From BE Require Import Model.Play Spec.PlayLaws Gen.PlayFns Proofs.Play Proofs.PlayGen Proofs.PlayGenCor.
 Local Open Scope nat_scope.
 
 (* a single-seat observer fed the accepted plays accepts every one and holds the same public state *)
@@ -18,6 +18,28 @@ Theorem C11_observer_agrees :
   (ops <> [] -> me <> dummy (hbase s0) -> exists dh, odummy o = Some dh /\ forall c, In c dh <-> In c (hands (runh s0 ops) (dummy (hbase s0)))).
 Proof. exact observer_agrees. Qed.
 Print Assumptions C11_observer_agrees.
+
+(* ObservedPlayingPhase.play_card_by_player regenerated from playing_phase.py on every run *)
+Theorem C11_generated_observer_step :
+  forall s c p,
+  play_card_raises (obase s) c = false -> g_obs_play_by s c p = obs_play_by s c p.
+Proof. exact g_obs_play_by_spec. Qed.
+Print Assumptions C11_generated_observer_step.
+
+Theorem C11_generated_observer_step_is_hand_model :
+  forall s c p, hist_ok (obase s) -> g_obs_play_by s c p = obs_play_by s c p.
+Proof. exact g_obs_play_by_eq. Qed.
+Print Assumptions C11_generated_observer_step_is_hand_model.
+
+Theorem C11_generated_observer_init :
+  forall k me hand, g_init_obs k me hand = init_obs k me hand.
+Proof. exact g_init_obs_eq. Qed.
+Print Assumptions C11_generated_observer_init.
+
+Theorem C11_generated_set_dummy_hand :
+  forall s h, g_set_dummy_hand s h = set_dummy_hand s h.
+Proof. exact g_set_dummy_hand_eq. Qed.
+Print Assumptions C11_generated_set_dummy_hand.
 
 (* non-vacuity *)
 Theorem C11_example_hypothesis :
